@@ -41,6 +41,7 @@ TIMEOUT_IS_VIOLATION = True      # "a failing run terminates": see sim/driver.py
 TIMEOUT_CONFIRM_S = 240
 R = W.SIMROOT
 ENTRIES = ["py-main-script", "py-sub-script", "ml-script", "py-main-api", "py-sub-api", "ml-api"]
+FOREIGN_ALNUM = ["\u00f6", "\u00df", "\u0434", "\u00e5", "\u00b2", "\u1d40", "\u4e2d", "\uff13", "\u00e9", "\u03b1", "\u0663"]
 STRAY_NONSTARTERS = [")", "]", ",", "=", "@@", "$"]
 STRAY_ANY = [";", "}", "{", "(", ")", ",", "*", "&", "@", "<", ">", "const", "class", "static", "virtual",
              "template", "typedef", "namespace", "enum", "int", "Foo", "x", "::", "=", "pair", "operator+",
@@ -135,7 +136,7 @@ def corrupt(lexemes, starts, tape, n, late=False, ml=False):
             tape.wpick([("delete", 4), ("duplicate", 3), ("swap", 3), ("stray", 3), ("del-bracket", 2),
                            ("trunc-lex", 2), ("trunc-bytes", 2), ("dup-block", 1), ("stray-toplevel", 2),
                            ("misspell", 2), ("stray-qualifier", 1.5), ("sig-tail", 2), ("member-head", 1.5), ("drop-default", 1.5), ("mangle-include", 1),
-                           ("list-edge", 2.5), ("bad-byte", 0.8)],
+                           ("list-edge", 2.5), ("bad-byte", 0.8), ("foreign-letter", 1.2)],
                           "corruption")
         i = tape.choose(len(lex), "pos")
         if kind == "delete":
@@ -311,6 +312,20 @@ def corrupt(lexemes, starts, tape, n, late=False, ml=False):
             lex.insert(i, "\udcff" if tape.bool(0.5, "ff-or-continuation") else "\udc85")
             # ... unless an earlier byte-level truncation (applied last, to the rendered text) may cut the byte away
             must_reject = cut_frac is None
+        elif kind == "foreign-letter":
+            # a letter or digit of another script inside an identifier (a name typed on another keyboard layout, a
+            # pasted superscript, a full-width digit): the dialect's identifiers are ASCII, the file is valid UTF-8.
+            # (not after `=`: a default-value expression may hold any characters)
+            idx = [k for k, t in enumerate(lex) if t.isascii() and t.replace("_", "a").isalnum() and
+                   not t[0].isdigit() and (k == 0 or lex[k - 1] != "=")]
+            if idx and pristine[0]:
+                k = idx[tape.choose(len(idx), "which-identifier")]
+                ch = tape.pick(FOREIGN_ALNUM, "foreign-char")
+                at = 1 + tape.choose(len(lex[k]), "foreign-at")
+                lex[k] = lex[k][:at] + ch + (lex[k][at + 1:] if tape.bool(0.5, "replace-or-insert") else lex[k][at:])
+                must_reject = True
+            else:
+                kind = "noop"
         elif kind == "dup-block":
             if len(starts) >= 2 and pristine[0]:
                 k = tape.choose(len(starts) - 1, "which-decl")
@@ -484,6 +499,7 @@ def _setup_world(tape, case, with_prior, fault_plan=None, budget=None):
 
 def reference_outputs(case):
     """(pristine fork) same bytes, empty output location"""
+    W.reference_clock()
     W.install_seams()
     B._quiet()
     w = _setup_world(Tape(replay=[]), case, with_prior=False)
